@@ -9,6 +9,7 @@ mod json;
 mod path_unit;
 mod varname_unit;
 mod total_unit;
+mod cssout_unit;
 
 pub struct Outcome {
     pub found: bool,
@@ -51,6 +52,8 @@ fn main() {
         ("PATH", "run") => path_unit::run(&input.unwrap()),
         ("VARNAME", "search") => varname_unit::search(),
         ("VARNAME", "run") => varname_unit::run(&input.unwrap()),
+        ("CSSOUT", "search") => cssout_unit::search(),
+        ("CSSOUT", "run") => cssout_unit::run(&input.unwrap()),
         ("TOTAL", "search") => total_unit::search(),
         ("TOTAL", "run") => total_unit::run(&input.unwrap()),
         _ => {
